@@ -98,6 +98,13 @@ func (dpq *DelayedPriorityQueue) Enqueue(
 		dpq.mutex.Lock()
 		defer dpq.mutex.Unlock()
 		dpq.requestCounts[req.priority]--
+		select {
+		case <-req.doneCh:
+			// handed off before we got the mutex: the slot is ours
+			return true, nil
+		default:
+		}
+		req.expired = true
 		return false, nil
 	}
 }
@@ -169,16 +176,17 @@ func (dpq *DelayedPriorityQueue) processQueueItems() {
 		dpq.cl.Logger.Trace().
 			Str("requestID", req.ID).
 			Msgf("Attempt to process queued request")
-		select {
-		case req.doneCh <- struct{}{}:
-			close(req.doneCh)
-			dpq.currentWindowCounter++
+		if req.expired {
 			dpq.cl.Logger.Trace().Str("requestID", req.ID).
-				Msgf("notified successful request processing to req.doneCh")
-		default:
-			dpq.cl.Logger.Trace().Str("requestID", req.ID).
-				Msgf("req.doneCh already closed")
+				Msgf("request already expired")
+			continue
 		}
+		// doneCh has capacity 1 and each request is popped once: the send never blocks and
+		// does not depend on the waiter having reached its select yet
+		req.doneCh <- struct{}{}
+		dpq.currentWindowCounter++
+		dpq.cl.Logger.Trace().Str("requestID", req.ID).
+			Msgf("notified successful request processing to req.doneCh")
 		dpq.cl.Logger.Trace().Msgf("request %s processed in queue", req.ID)
 	}
 }
